@@ -44,10 +44,10 @@ ASSUMPTIONS = [
 ]
 BUDGET = {"quick": {"worker_timeout": 600, "case_timeout": 60}, "thorough": {"worker_timeout": 3000, "case_timeout": 120}}
 REQUIRED_COUNTERS = {
-    "quick": {"extra_limdtype_compared": 80, "extra_alias_compared": 60, "legvec_exact_entries_checked": 5000, "abscissae_compared": 5000, "form_num": 50, "form_int": 10, "form_t0": 50, "form_t1": 50,
+    "quick": {"extra_limdtype_compared": 80, "extra_alias_compared": 60, "extra_bckopts_compared": 25, "extra_inf32_compared": 25, "legvec_exact_entries_checked": 5000, "abscissae_compared": 5000, "form_num": 50, "form_int": 10, "form_t0": 50, "form_t1": 50,
               "form_mixed": 50, "style_pure_num_calls": 30, "inf_both": 10, "inf_half": 10, "tuple_components_checked": 50,
               "poly_linearity_checked": 50, "poly_swap_checked": 50, "poly_additivity_checked": 50, "float32_cases": 30},
-    "thorough": {"extra_limdtype_compared": 800, "extra_alias_compared": 600, "legvec_exact_entries_checked": 50000, "abscissae_compared": 50000, "form_num": 500, "form_int": 100, "form_t0": 500,
+    "thorough": {"extra_limdtype_compared": 800, "extra_alias_compared": 600, "extra_bckopts_compared": 250, "extra_inf32_compared": 250, "legvec_exact_entries_checked": 50000, "abscissae_compared": 50000, "form_num": 500, "form_int": 100, "form_t0": 500,
                  "form_t1": 500, "form_mixed": 500, "style_pure_num_calls": 300, "inf_both": 100, "inf_half": 100,
                  "tuple_components_checked": 500, "poly_linearity_checked": 500, "poly_swap_checked": 500, "poly_additivity_checked": 500,
                  "float32_cases": 300},
